@@ -27,17 +27,17 @@ variable {α D : Type} [Add α] [Sub α] [Mul α] [Div α] [Neg α] [LT α] [LE 
     `y_out` is the ψ-oracle's `ŷ` *at that very `x_out`*, and `err_z = (y_out − y_in)/Σ`.
     Otherwise `x`, `y`, `err_z` are the caller's values, untouched. -/
 theorem panoc_exit_contract (P : Problem α) (dir : Direction D α) (d0 : D) (pr : Params α)
-    (stop : Nat → Bool) (oot : Bool) (x0 y Sig errz0 gV : Vec α) (gS : α)
-    (hfuel : (run P dir d0 pr stop oot x0 y Sig errz0 gV gS).fuelOut = false) :
-    ExitOK P x0 y Sig errz0 (run P dir d0 pr stop oot x0 y Sig errz0 gV gS) := by
+    (stop : Nat → Bool) (oot : Bool) (x0 y Sig errz0 gV : Vec α) (gS iS : α)
+    (hfuel : (run P dir d0 pr stop oot x0 y Sig errz0 gV gS iS).fuelOut = false) :
+    ExitOK P x0 y Sig errz0 (run P dir d0 pr stop oot x0 y Sig errz0 gV gS iS) := by
   unfold run at hfuel ⊢
-  cases hi : initState P d0 pr stop x0 gV gS with
+  cases hi : initState P d0 pr stop x0 gV gS iS with
   | inl t =>
     simp only [hi] at hfuel ⊢
     exact ⟨fun h => absurd h (by simp), fun _ => ⟨rfl, rfl, rfl⟩⟩
   | inr s =>
     simp only [hi] at hfuel ⊢
-    have hs := initState_good P d0 pr stop x0 gV gS s hi
+    have hs := initState_good P d0 pr stop x0 gV gS iS s hi
     refine mainLoop_ok P dir pr stop oot x0 y Sig errz0 _ s hs ?_ hfuel
     rcases Bool.eq_false_or_eq_true s.fuelOut with hc | hc
     · have := mainLoop_fuelOut_mono P dir pr stop oot x0 y Sig errz0 (pr.maxIter + 2) s hc
@@ -48,36 +48,36 @@ theorem panoc_exit_contract (P : Problem α) (dir : Direction D α) (d0 : D) (pr
     unconstrained steps in `Props/C15`), the written-back `x` is in `C`. -/
 theorem panoc_x_out_feasible (InC : Vec α → Prop) (P : Problem α) (hP : ∀ γ x g, InC (P.prox γ x g).2.1)
     (dir : Direction D α) (d0 : D) (pr : Params α)
-    (stop : Nat → Bool) (oot : Bool) (x0 y Sig errz0 gV : Vec α) (gS : α)
-    (hfuel : (run P dir d0 pr stop oot x0 y Sig errz0 gV gS).fuelOut = false)
-    (hw : (run P dir d0 pr stop oot x0 y Sig errz0 gV gS).wrote = true) :
-    InC (run P dir d0 pr stop oot x0 y Sig errz0 gV gS).x := by
-  obtain ⟨⟨γ, x, g, hx⟩, _, _⟩ := (panoc_exit_contract P dir d0 pr stop oot x0 y Sig errz0 gV gS hfuel).1 hw
+    (stop : Nat → Bool) (oot : Bool) (x0 y Sig errz0 gV : Vec α) (gS iS : α)
+    (hfuel : (run P dir d0 pr stop oot x0 y Sig errz0 gV gS iS).fuelOut = false)
+    (hw : (run P dir d0 pr stop oot x0 y Sig errz0 gV gS iS).wrote = true) :
+    InC (run P dir d0 pr stop oot x0 y Sig errz0 gV gS iS).x := by
+  obtain ⟨⟨γ, x, g, hx⟩, _, _⟩ := (panoc_exit_contract P dir d0 pr stop oot x0 y Sig errz0 gV gS iS hfuel).1 hw
   rw [hx]; exact hP γ x g
 
 /-- Consistency: `y_out = ŷ(x_out)` and `err_z = (y_out − y_in)/Σ`, i.e. `y_out = y_in + Σ·err_z`
     componentwise whenever `Σ_i ≠ 0` (stated in the division form the code computes). -/
 theorem panoc_y_errz_consistent (P : Problem α) (dir : Direction D α) (d0 : D) (pr : Params α)
-    (stop : Nat → Bool) (oot : Bool) (x0 y Sig errz0 gV : Vec α) (gS : α)
-    (hfuel : (run P dir d0 pr stop oot x0 y Sig errz0 gV gS).fuelOut = false)
-    (hw : (run P dir d0 pr stop oot x0 y Sig errz0 gV gS).wrote = true) :
-    (run P dir d0 pr stop oot x0 y Sig errz0 gV gS).y
-        = (P.psi (run P dir d0 pr stop oot x0 y Sig errz0 gV gS).x).2 ∧
-    (errz0.length > 0 → (run P dir d0 pr stop oot x0 y Sig errz0 gV gS).errz
-        = vdiv (vsub (run P dir d0 pr stop oot x0 y Sig errz0 gV gS).y y) Sig) := by
-  obtain ⟨_, hy, he⟩ := (panoc_exit_contract P dir d0 pr stop oot x0 y Sig errz0 gV gS hfuel).1 hw
+    (stop : Nat → Bool) (oot : Bool) (x0 y Sig errz0 gV : Vec α) (gS iS : α)
+    (hfuel : (run P dir d0 pr stop oot x0 y Sig errz0 gV gS iS).fuelOut = false)
+    (hw : (run P dir d0 pr stop oot x0 y Sig errz0 gV gS iS).wrote = true) :
+    (run P dir d0 pr stop oot x0 y Sig errz0 gV gS iS).y
+        = (P.psi (run P dir d0 pr stop oot x0 y Sig errz0 gV gS iS).x).2 ∧
+    (errz0.length > 0 → (run P dir d0 pr stop oot x0 y Sig errz0 gV gS iS).errz
+        = vdiv (vsub (run P dir d0 pr stop oot x0 y Sig errz0 gV gS iS).y y) Sig) := by
+  obtain ⟨_, hy, he⟩ := (panoc_exit_contract P dir d0 pr stop oot x0 y Sig errz0 gV gS iS hfuel).1 hw
   exact ⟨hy, fun h => by rw [he, if_pos h]⟩
 
 /-- With `always_overwrite_results` disabled and an exit that is neither Converged nor
     Interrupted, `x`, `y` (and `err_z`) are left untouched. -/
 theorem panoc_untouched (P : Problem α) (dir : Direction D α) (d0 : D) (pr : Params α)
-    (stop : Nat → Bool) (oot : Bool) (x0 y Sig errz0 gV : Vec α) (gS : α)
-    (hfuel : (run P dir d0 pr stop oot x0 y Sig errz0 gV gS).fuelOut = false)
-    (hw : (run P dir d0 pr stop oot x0 y Sig errz0 gV gS).wrote = false) :
-    (run P dir d0 pr stop oot x0 y Sig errz0 gV gS).x = x0 ∧
-    (run P dir d0 pr stop oot x0 y Sig errz0 gV gS).y = y ∧
-    (run P dir d0 pr stop oot x0 y Sig errz0 gV gS).errz = errz0 :=
-  (panoc_exit_contract P dir d0 pr stop oot x0 y Sig errz0 gV gS hfuel).2 hw
+    (stop : Nat → Bool) (oot : Bool) (x0 y Sig errz0 gV : Vec α) (gS iS : α)
+    (hfuel : (run P dir d0 pr stop oot x0 y Sig errz0 gV gS iS).fuelOut = false)
+    (hw : (run P dir d0 pr stop oot x0 y Sig errz0 gV gS iS).wrote = false) :
+    (run P dir d0 pr stop oot x0 y Sig errz0 gV gS iS).x = x0 ∧
+    (run P dir d0 pr stop oot x0 y Sig errz0 gV gS iS).y = y ∧
+    (run P dir d0 pr stop oot x0 y Sig errz0 gV gS iS).errz = errz0 :=
+  (panoc_exit_contract P dir d0 pr stop oot x0 y Sig errz0 gV gS iS hfuel).2 hw
 
 example : True := trivial
 
